@@ -6,6 +6,11 @@
 //! `Poll::Pending` injections are scripted by the operation; the futures are polled by hand in a
 //! scripted order, so that a case replays exactly.
 //!
+//! `report` builds a real `ProtocolSet` whose protocol receivers are owned by the adapter, calls the
+//! real `ProtocolSet::report_substream_open` with the negotiated name and a `Substream` over the
+//! guarded in-memory pipe, and prints which protocol's channel got the `SubstreamOpened` event and
+//! with which `protocol` / `fallback` fields.
+//!
 //! Names, payloads and wire bytes are hex strings (`-` is the empty string), lists are comma
 //! separated.
 
@@ -60,7 +65,7 @@ fn list(s: &str) -> Vec<Vec<u8>> {
     }
 }
 
-fn script(s: Option<&&str>) -> Script {
+pub fn script(s: Option<&&str>) -> Script {
     let items = match s {
         None => Vec::new(),
         Some(s) if **s == *"-" => Vec::new(),
@@ -83,7 +88,7 @@ struct Dir {
 
 /// Scripted sizes for successive polls: `0` is an injected `Poll::Pending`, `k > 0` transfers at
 /// most `k` bytes; an exhausted script transfers as much as possible.
-struct Script {
+pub struct Script {
     items: Vec<usize>,
     pos: usize,
 }
@@ -99,7 +104,7 @@ struct Shared {
     activity: u64,
 }
 
-struct End {
+pub struct End {
     rx: Rc<RefCell<Dir>>,
     tx: Rc<RefCell<Dir>>,
     rscript: Script,
@@ -221,7 +226,7 @@ fn noop_waker() -> Waker {
     unsafe { Waker::from_raw(RawWaker::new(std::ptr::null(), &VTABLE)) }
 }
 
-fn io_kind(k: io::ErrorKind) -> String {
+pub fn io_kind(k: io::ErrorKind) -> String {
     match k {
         io::ErrorKind::InvalidData => "invalid-data".into(),
         io::ErrorKind::UnexpectedEof => "unexpected-eof".into(),
@@ -273,8 +278,8 @@ fn parse_version(s: &str) -> Version {
     }
 }
 
-type TaskOut = (String, Vec<u8>);
-type Task = Pin<Box<dyn Future<Output = TaskOut>>>;
+pub type TaskOut = (String, Vec<u8>);
+pub type Task = Pin<Box<dyn Future<Output = TaskOut>>>;
 
 /// What the test application does with a negotiated stream: write the payload, flush, wait for the
 /// negotiation to complete (relevant for the lazy dialer), close the write side, read to the end.
@@ -319,6 +324,42 @@ fn listen_task(io: End, protos: Vec<Vec<u8>>, pay: Vec<u8>) -> Task {
             Ok((name, io)) => after(name, io, pay).await,
         }
     })
+}
+
+/// The real litep2p dialer as a task over one end of the scripted duplex (for the harness, which
+/// runs it against the reference implementation).
+pub fn lp_dial_task(io: End, protos: Vec<Vec<u8>>, lazy: bool, pay: Vec<u8>) -> Task {
+    dial_task(io, protos, if lazy { Version::V1Lazy } else { Version::V1 }, pay)
+}
+
+/// The real litep2p listener as a task over one end of the scripted duplex.
+pub fn lp_listen_task(io: End, protos: Vec<Vec<u8>>, pay: Vec<u8>) -> Task {
+    listen_task(io, protos, pay)
+}
+
+/// Run a dialer task and a listener task against each other over a scripted duplex (chunk sizes and
+/// `Pending` injections `dr`/`dw`/`lr`/`lw`, poll order `order`) and print the observation of the
+/// `negotiate` operation.
+pub fn run_pair(
+    a: &std::collections::HashMap<&str, &str>,
+    dialer: impl FnOnce(End) -> Task,
+    listener: impl FnOnce(End) -> Task,
+) -> String {
+    let (ed, el, dl, ld, shared) = MssBox::duplex(
+        (script(a.get("dr")), script(a.get("dw"))),
+        (script(a.get("lr")), script(a.get("lw"))),
+    );
+    let tasks = vec![dialer(ed), listener(el)];
+    let out = run(tasks, a.get("order").copied().unwrap_or("dl"), &shared);
+    let show = |o: &Option<TaskOut>| match o {
+        None => ("stuck".to_string(), "-".to_string()),
+        Some((r, read)) => (r.clone(), hx(read)),
+    };
+    let (d, dread) = show(&out[0]);
+    let (l, lread) = show(&out[1]);
+    let dw = hx(&dl.borrow().log);
+    let lw = hx(&ld.borrow().log);
+    format!("d={d} l={l} dread={dread} lread={lread} dw={dw} lw={lw}")
 }
 
 /// Poll the tasks by hand in the scripted order until all are finished; `None` for a task that
@@ -422,6 +463,126 @@ fn show_listen(r: &crate::Result<ListenerSelectResult>) -> String {
 
 pub struct MssBox {
     dialer: Option<WebRtcDialerState>,
+}
+
+/// `report protos=M;F;F,M,M;F neg=N`: install the protocols `M` with fallback names `F`, report an
+/// inbound substream negotiated as `N`.
+fn report(protos: &str, neg: &str) -> String {
+    use crate::{
+        codec::ProtocolCodec,
+        error::{NegotiationError as CrateNegErr, SubstreamError},
+        protocol::{InnerTransportEvent, ProtocolSet, SubstreamKeepAlive},
+        substream::Substream,
+        transport::manager::ProtocolContext,
+        types::{ConnectionId, SubstreamId},
+        verif::io::pipe,
+    };
+    use std::collections::HashMap;
+    use tokio::sync::mpsc::channel;
+
+    let name = |h: &str| String::from_utf8(unhx(h)).ok().map(ProtocolName::from);
+    let mut installed: Vec<(ProtocolName, Vec<ProtocolName>)> = Vec::new();
+    if protos != "-" && !protos.is_empty() {
+        for entry in protos.split(',') {
+            let mut it = entry.split(';');
+            let Some(main) = it.next().and_then(name) else {
+                return "bad-op".into();
+            };
+            let mut fbs = Vec::new();
+            for f in it {
+                let Some(f) = name(f) else {
+                    return "bad-op".into();
+                };
+                fbs.push(f);
+            }
+            installed.push((main, fbs));
+        }
+    }
+    let Some(neg) = name(neg) else {
+        return "bad-op".into();
+    };
+    // the installed protocols are the keys of a map, and a fallback name that belongs to two
+    // protocols would be resolved by hash-map iteration order: both are outside the operation
+    for (i, (main, fbs)) in installed.iter().enumerate() {
+        for (j, (other, ofbs)) in installed.iter().enumerate() {
+            if i < j && (main == other || fbs.iter().any(|f| ofbs.contains(f))) {
+                return "bad-op".into();
+            }
+        }
+    }
+
+    let (mgr_tx, _mgr_rx) = channel(4);
+    let mut rxs = Vec::new();
+    let mut protocols = HashMap::new();
+    for (main, fbs) in &installed {
+        let (tx, rx) = channel(4);
+        protocols.insert(
+            main.clone(),
+            ProtocolContext {
+                codec: ProtocolCodec::Identity(32),
+                tx,
+                fallback_names: fbs.clone(),
+                keep_alive: SubstreamKeepAlive::Yes,
+            },
+        );
+        rxs.push(rx);
+    }
+    let mut set =
+        ProtocolSet::new(ConnectionId::from(3usize), mgr_tx, Default::default(), protocols);
+    // what the connection offers to the remote dialer: main and fallback names
+    let n = set.protocols_with_keep_alives().len();
+    let Some(permit) = set.try_get_permit() else {
+        return "err:no-permit".into();
+    };
+    let (end, _ctl) = pipe(64);
+    let substream = Substream::new_verif(
+        crate::verif::peer(1),
+        SubstreamId::from(1usize),
+        Box::new(end),
+        ProtocolCodec::Identity(32),
+    );
+    let result = {
+        let fut = set.report_substream_open(
+            crate::verif::peer(1),
+            neg,
+            crate::protocol::Direction::Inbound,
+            substream,
+            permit,
+        );
+        let mut fut = Box::pin(fut);
+        let waker = noop_waker();
+        let mut cx = Context::from_waker(&waker);
+        match fut.as_mut().poll(&mut cx) {
+            Poll::Ready(r) => r,
+            Poll::Pending => return format!("blocked n={n}"),
+        }
+    };
+    match result {
+        Ok(()) => {
+            let mut got = Vec::new();
+            for (i, rx) in rxs.iter_mut().enumerate() {
+                while let Ok(event) = rx.try_recv() {
+                    match event {
+                        InnerTransportEvent::SubstreamOpened { protocol, fallback, .. } => got.push(format!(
+                            "to={i} main={} fb={}",
+                            hx(protocol.as_bytes()),
+                            fallback.map_or("none".to_string(), |f| hx(f.as_bytes()))
+                        )),
+                        _ => got.push(format!("to={i} other-event")),
+                    }
+                }
+            }
+            if got.len() == 1 {
+                format!("ok {} n={n}", got[0])
+            } else {
+                format!("ok events={} n={n}", got.len())
+            }
+        }
+        Err(SubstreamError::NegotiationError(CrateNegErr::MultistreamSelectError(
+            NegotiationError::ProtocolError(ProtocolError::ProtocolNotSupported),
+        ))) => format!("err:not-supported n={n}"),
+        Err(e) => format!("err:{e:?} n={n}").replace(' ', "_").replace("_n=", " n="),
+    }
 }
 
 impl MssBox {
@@ -613,6 +774,10 @@ impl VerifBox for MssBox {
                 let split = a.get("split").map(|s| s.parse().expect("split")).unwrap_or(0);
                 Self::wpair(main.clone(), fb, sup, split)
             }
+            ["report", rest @ ..] => {
+                let a = kv(rest);
+                report(a.get("protos").copied().unwrap_or("-"), a.get("neg").copied().unwrap_or("-"))
+            }
             ["negotiate", rest @ ..] => {
                 let a = kv(rest);
                 let version = parse_version(a.get("ver").copied().unwrap_or("v1"));
@@ -620,21 +785,11 @@ impl VerifBox for MssBox {
                 let lnames = list(a.get("listener").copied().unwrap_or("-"));
                 let dpay = unhx(a.get("dpay").copied().unwrap_or("-"));
                 let lpay = unhx(a.get("lpay").copied().unwrap_or("-"));
-                let (ed, el, dl, ld, shared) = Self::duplex(
-                    (script(a.get("dr")), script(a.get("dw"))),
-                    (script(a.get("lr")), script(a.get("lw"))),
-                );
-                let tasks = vec![dial_task(ed, dnames, version, dpay), listen_task(el, lnames, lpay)];
-                let out = run(tasks, a.get("order").copied().unwrap_or("dl"), &shared);
-                let show = |o: &Option<TaskOut>| match o {
-                    None => ("stuck".to_string(), "-".to_string()),
-                    Some((r, read)) => (r.clone(), hx(read)),
-                };
-                let (d, dread) = show(&out[0]);
-                let (l, lread) = show(&out[1]);
-                let dw = hx(&dl.borrow().log);
-                let lw = hx(&ld.borrow().log);
-                format!("d={d} l={l} dread={dread} lread={lread} dw={dw} lw={lw}")
+                run_pair(
+                    &a,
+                    |io| dial_task(io, dnames, version, dpay),
+                    |io| listen_task(io, lnames, lpay),
+                )
             }
             [role @ ("dial" | "listen"), rest @ ..] => {
                 let a = kv(rest);
